@@ -207,7 +207,7 @@ def hexs(b):
 
 def shard(cases, n):
     """Split a case list into about n shards; a history (from its H line) is never split."""
-    if len(cases) < 200 and not any(x.startswith(('A ', 'B ')) for x in cases):
+    if len(cases) < 200 and not any(x.startswith(('A ', 'B ', 'F ')) for x in cases):
         return [cases]
     groups, cur = [], []
     for c in cases:
